@@ -45,7 +45,7 @@ func returnsMissing(fn *ssa.Function, hit func(ssa.Instruction) bool) []*ssa.Ret
 
 // nilGuardReturn: the return sits in a block control-dependent on `param == nil` (nothing to do for a nil argument).
 func nilGuardReturn(ret *ssa.Return) bool {
-	for _, cf := range condFacts(ret.Block()) {
+	for _, cf := range normFacts(condFacts(ret.Block())) {
 		bo, ok := cf.Cond.(*ssa.BinOp)
 		if !ok {
 			continue
@@ -125,7 +125,13 @@ func isBaseRemover(f *ssa.Function) bool {
 		return false
 	}
 	cmp := false
-	for _, g := range withAnon(f) { // the name test may sit in a predicate closure (slices.IndexFunc)
+	scan := withAnon(f)
+	eachInstr(f, func(in ssa.Instruction) { // … or in a named predicate (`sameEndpoint(a, b)`)
+		if cc := getCall(in); cc != nil && isPurePredicate(cc.StaticCallee(), 2) {
+			scan = append(scan, cc.StaticCallee())
+		}
+	})
+	for _, g := range scan { // the name test may sit in a predicate closure (slices.IndexFunc)
 		eachInstr(g, func(in ssa.Instruction) {
 			if bo, ok := in.(*ssa.BinOp); ok && bo.Op == token.EQL {
 				if mentionsField(bo.X, pkgDomain, "Endpoint", "Name", 3) && mentionsField(bo.Y, pkgDomain, "Endpoint", "Name", 3) {
@@ -227,6 +233,29 @@ func checkC04(c *Ctx, r *Report) {
 		call, ok := v.(*ssa.Call)
 		if !ok {
 			continue
+		}
+		// the skip test inside a named predicate (`skippedWithoutContact(err, tracked)`): its true answer implies
+		// errors.Is(<attempt error>, sentinel)
+		if sc := call.Call.StaticCallee(); sc != nil && c.inRepo(sc) && len(call.Call.Args) >= 2 {
+			for _, cf := range normFacts([]condFact{{ifi.Cond, true, ifi}}) {
+				ic, isC := cf.Cond.(*ssa.Call)
+				if !isC || !cf.True || describeCall(&ic.Call).Pkg != "errors" || describeCall(&ic.Call).Name != "Is" {
+					continue
+				}
+				fromAttempt := false
+				if prm, isP := ic.Call.Args[0].(*ssa.Parameter); isP {
+					for _, a := range paramBindings[prm] {
+						if derivesFromAttempt(a) {
+							fromAttempt = true
+						}
+					}
+				}
+				if ld, isL := ic.Call.Args[1].(*ssa.UnOp); isL && fromAttempt {
+					if g, isG := ld.X.(*ssa.Global); isG {
+						skipGlobal, skipIf = g, ifi
+					}
+				}
+			}
 		}
 		ci := describeCall(&call.Call)
 		if ci.Pkg == "errors" && ci.Name == "Is" && derivesFromAttempt(call.Call.Args[0]) {
